@@ -273,9 +273,18 @@ func genC11CSS(r *core.Rand) c11Host {
 		if par != "" {
 			uriType += ";" + par
 		}
-		fmt.Fprintf(&sb, ".c%d{background:url(%sdata:%s,", i, q, uriType)
+		// a quoted URI may be broken over lines with backslash-newline, also right behind the opening and right in
+		// front of the closing quote; the continuation is not part of the URI
+		cont := func(k int) string {
+			if q == "" {
+				return ""
+			}
+			return []string{"", "", "\\\n", "\\\r\n", "\\\r"}[(k+r.Intn(5))%5]
+		}
+		fmt.Fprintf(&sb, ".c%d{background:url(%s%sdata:%s,", i, q, cont(0), uriType)
 		slots = append(slots, c11Slot{Kind: "cssdatauri", Mediatype: mt, Params: par, Payload: payload, Offset: sb.Len()})
-		sb.WriteString(enc.Replace(payload) + q + ")}\n")
+		ep := enc.Replace(payload)
+		sb.WriteString(ep[:len(ep)/2] + cont(1) + ep[len(ep)/2:] + cont(2) + q + ")}\n")
 	}
 	return c11Host{Lang: "css", Doc: sb.String(), Slots: slots}
 }
